@@ -9,15 +9,15 @@ HERE = os.path.dirname(os.path.dirname(os.path.abspath(__file__)))
 CHECKS = {
     "C09": dict(level="model_checking", ref="§4 C09, §2.3",
                 text="TLC exhaustively checks WeakDom.tla (WellFormed, NoCycle, walk contract) for small constants; every 2-call history and TLC-simulated long histories are executed on real WeakDoms and, with a seeded random driver, validated line by line against the specification by WeakDomTrace.tla.",
-                note="Trusted: TLC, the harness projection of public API state, the bounded constants of the model. Histories beyond the enumerated lengths are sampled, not exhausted.",
+                note="Trusted: TLC, the harness projection of public API state, the bounded constants of the model. Histories beyond the enumerated lengths are sampled, not exhausted. Rootless DOMs (WeakDom::default()), builders whose referent is already in the DOM (documented panic, partial insertion) and the calls the documentation promises to refuse (BadCall) are actions of the specification and are driven too.",
                 technique="TLA+ spec WeakDom.tla + TLC model checking + spec-to-impl history replay + trace validation (WeakDomTrace.tla)"),
     "C10": dict(level="model_checking", ref="§4 C10, §2.3",
                 text="Each WeakDom call is one action of WeakDom.tla whose structural post-state is computed by the spec and compared with the real post-state after every call; frame conditions are also checked as TLC action properties on the spec.",
-                note="Same trusted base as C09; comparison covers referents, parent, sibling position, name, class and properties of every instance in every DOM.",
+                note="Same trusted base as C09; comparison covers referents, parent, sibling position, name, class and properties of every instance in every DOM. The refused calls (root destroyed / moved, instance not in the DOM) and the colliding insert must leave every DOM exactly as the specification says.",
                 technique="TLA+ action properties (TLC) + exact post-state trace validation against WeakDom.tla"),
     "C11": dict(level="model_checking", ref="§4 C11, §2.3",
                 text="Clone actions of WeakDom.tla (three-way Ref rule) are model-checked against an independent 'exists a bijection' statement (CloneIso) and every real clone call in replayed/driven histories is validated against the action.",
-                note="Same trusted base as C09. Root lists with repeated or nested roots are modelled too (queue discipline, CloneEachComplete); for an instance copied twice in one call the specification records what the code does (only the copy recorded last has its Refs rewritten).",
+                note="Same trusted base as C09. Root lists with repeated or nested roots are modelled too (queue discipline, CloneEachComplete); for an instance copied twice in one call the specification records what the code does (only the copy recorded last has its Refs rewritten). Destinations include rootless DOMs (WeakDom::default()) that already hold earlier copies and transferred instances.",
                 technique="TLA+ CloneIso action property (TLC) + trace validation of real clone calls"),
     "C12": dict(level="model_checking", ref="§4 C12, §2.3, §2.4",
                 text="UidRule (relation form of inner_insert/inner_remove) is model-checked for UidDistinct/UidSetExact/UidStable; real histories with colliding ids are validated with the bookkeeping set exposed by hook H2.",
@@ -25,11 +25,11 @@ CHECKS = {
                 technique="TLA+ UidRule relation + TLC + trace validation with hook-exposed bookkeeping set"),
     "C01": dict(level="model_checking", ref="§4 C01, §2.5",
                 text="Every generated forest is written by rbx_binary under the three compression modes and read back; TLC evaluates RoundTripIssues (BinaryFormat.tla) = {} on the logged before/after forests, with the permitted normalisations (BinaryString for unknown string blobs, 8-bit colour quantisation as a relation on bit patterns, epsilon rotation snapping, gained defaults) written as TLA+ operators over byte-vector values and the reflection database loaded as a constant.",
-                note="Value spaces are sampled (boundary tables + random bits); zstd/lz4 are trusted third-party code; the database export and the forest projection are trusted.",
+                note="Value spaces are sampled (boundary tables + random bits); zstd/lz4 are trusted third-party code; the database export and the forest projection are trusted. Besides the sampled plans a written-out sweep (`boundary`) places the edge values of every type under a known spelling, an alias and an unknown class on every run.",
                 technique="TLA+ specification of the binary format's meaning (BinaryFormat.tla, Reflection.tla) + trace validation of logged write/read cases"),
     "C02": dict(level="model_checking", ref="§4 C02/C05, §2.6",
                 text="Generated forests are written by rbx_xml (default options for database properties, WriteUnknown+ReadUnknown and NoReflection+NoReflection for unknown ones) and read back; TLC evaluates XmlRoundTripIssues (XmlFormat.tla) = {} on the logged forests: canonical names through Reflection.tla, floats bit-exact (NaN as a class), the documented XML normalisations (BrickColor->Int32, Tags/Attributes/MaterialColors->BinaryString for unknown properties, colour quantisation), references and SharedStrings restored.",
-                note="The lexical layer is exercised through real text but judged only via the values that come back; values are sampled. Content object references are a recorded finding (writer panics).",
+                note="The lexical layer is exercised through real text but judged only via the values that come back; values are sampled. Content object references are a recorded finding (writer panics). A written-out `boundary` sweep (edge values of every type) and a `bigvalues` plan (values of more than a mebibyte; byte strings over 8 KiB reach TLC as SHA-256 digests, on all sides alike) run every time.",
                 technique="TLA+ specification of the XML format's meaning (XmlFormat.tla) + trace validation of logged write/read cases"),
     "C03": dict(level="model_checking", ref="§4 C03, §2.5",
                 text="The independent decoder is the TLA+ module BinaryWire (docs/binary.md transcribed; its worked examples are ASSUMEs checked every run). Every file rbx_binary emits for generated forests is decoded by TLC and must satisfy WriterInvariants (all structural clauses of the property) and FileIssues = {} (the decoded classes, hierarchy and values are exactly the forest), for all three compression modes with byte-identical chunk data; a document-literal dialect run lists where document and code disagree.",
@@ -37,15 +37,15 @@ CHECKS = {
                 technique="TLA+ transcription of docs/binary.md (BinaryWire.tla) decoding real files inside TLC + structural invariants"),
     "C04": dict(level="model_checking", ref="§4 C04, §2.5",
                 text="MCForeignBinary.tla enumerates, for fixed logical forests, every combination of the freedoms docs/binary.md leaves open (class ids, referents, INST/PROP/PRNT orders, META/unknown chunks, service format, narrower numeric types with large values, truncated/unknown-type PROP chunks, per-chunk compression, a declared class without instances, large sparse referents, properties unknown to the database). A foreign encoder written from the document concretises each abstract file; TLC first decodes the bytes with BinaryWire.tla and requires them to mean the logical forest (the encoder is held to the spec), then requires the forest rbx_binary read to be that forest.",
-                note="Two fixed forests; quick tier replays a seeded sample of the enumerated abstract files, thorough all of group 2 and 12000 of group 1. INST chunks precede PROP chunks as in the document's file structure.",
+                note="Two fixed forests; quick tier replays a seeded sample of the enumerated abstract files, thorough all of group 2 and 12000 of group 1. INST chunks precede PROP chunks as in the document's file structure. Class ids and unknown-chunk data include the byte pattern of the Zstandard magic (ids are read as two's-complement 32-bit values, TLC's integers being 32-bit).",
                 technique="TLA+ enumeration of spec-conformant encodings + independent encoder validated by the TLA+ decoder + trace validation of the real reader"),
     "C05": dict(level="model_checking", ref="§4 C02/C05, §2.6",
                 text="Writer direction: every document rbx_xml emits is parsed by an independent XML parser (expat) into a token tree and TLC evaluates DocInvariants (all structural clauses of the property) and DocIssues = {} with XmlValue, the per-type value decoder transcribed from docs/xml.md. Reader direction: an independent generator written from docs/xml.md emits documents varying referent style, property order, indentation, Meta/External, forward references, ProtectedString, url/uri, wrapped and indented base64, number spellings, Properties placement, position of the SharedStrings dictionary; each document is first held to XmlFormat.tla itself, then the forest rbx_xml read must be the forest it describes.",
-                note="Decimal text -> bit patterns is done by exact rational arithmetic in tools/xmltok.py (type-agnostic lexical views); which view a type uses is decided in TLA+. Two recorded findings (CR in strings, inf/NaN spelling inside CFrames).",
+                note="Decimal text -> bit patterns is done by exact rational arithmetic in tools/xmltok.py (type-agnostic lexical views); which view a type uses is decided in TLA+. Two recorded findings (CR in strings, inf/NaN spelling inside CFrames). Documents holding values of more than a mebibyte are judged too: tools/xmltok.py replaces byte strings over 8 KiB by SHA-256 + length in the forests and in the views of the text alike.",
                 technique="independent XML parser + TLA+ value decoder from docs/xml.md (XmlFormat.tla) + independent document generator validated by the same spec"),
     "C06": dict(level="model_checking", ref="§4 C06, §2.6",
                 text="For generated DOMs over database classes (and, descriptor by descriptor, every serializable non-migrating property in canonical and alias spelling) both encodings are written and read; TLC evaluates CrossIssues (CrossFormatTrace.tla): identical shape and, for every explicitly set property, the same canonical name (one Reflection.tla lookup for both codecs) with equal values (NaN as a class, the binary format's documented rotation snapping applied to the XML side). Conversion bin->xml and xml->bin must lose nothing the first read produced.",
-                note="Values sampled; Content object references excluded (recorded C02 finding).",
+                note="Values sampled; Content object references excluded (recorded C02 finding). A written-out `boundary` sweep (edge values of every type under known spellings) runs every time.",
                 technique="TLA+ cross-format equivalence (CrossFormatTrace.tla over XmlFormat/BinaryFormat/Reflection) + trace validation"),
     "C07": dict(level="model_checking", ref="§4 C07",
                 text="Model: MCBinaryColumns' OrderFree invariant (TLC) shows no property-map or alias-set iteration order reaches the writer's output. Implementation: logical forests (a function of seed and case) (carrying explicit UniqueIds and instances with several SharedStrings) are built by four different construction histories (incl. moving every subtree to another DOM and back) with shuffled property insertion order in separate processes (fresh hash seeds, fresh Refs); DeterminismTrace.tla requires byte-identical binary (3 compressions) and XML output whenever the logical forest is equal, and save(load(save)) = save(load(save(load(save)))).",
@@ -53,7 +53,7 @@ CHECKS = {
                 technique="TLA+ OrderFree invariant (TLC) + cross-process determinism traces judged by DeterminismTrace.tla"),
     "C08": dict(level="model_checking", ref="§4 C08, §2.5, App. B.3",
                 text="MCBinaryColumns.tla models collect_type_info and the per-instance value lookup with the real database as a constant; TLC checks AlwaysSucceeds / OwnValues / ColumnsExact / ExplicitWins for every subset assignment, sibling order, property-map and alias-set iteration order (and re-finds both repaired defects under the pre-fix rules). Every population (initial state) is built as a real DOM, written and read by rbx_binary, also instance by instance, in several processes, and judged by BinaryFormat.tla (own values, defaults for lacking properties, success iff each instance succeeds alone, the outcome AlwaysSucceeds predicts, the same outcome for every sibling order and process).",
-                note="Exhaustive for the listed classes/spellings and 2-3 instances; other classes are reached by C01's random generators. The Font enum -> Font face table is uninterpreted.",
+                note="Exhaustive for the listed classes/spellings and 2-3 instances; other classes are reached by C01's random generators. The Font enum -> Font face table is uninterpreted. Two configurations add a sibling of another known class that carries the same property names with different database defaults.",
                 technique="TLA+ state machine of the writer's column logic (TLC) + exhaustive population replay + trace validation"),
     "C13": dict(level="fault_enumeration", ref="§4 C13, §2.7",
                 text="IoFaults.tla models a byte source with short reads and Interrupted errors and is model-checked for schedule independence and truncation detection; every maximal schedule TLC prints is replayed (cycled) over valid binary (3 compressions), XML and attribute inputs on the real decoders, whose result must equal the whole-buffer result. Truncation at every offset must be an error, a sink failing at every output offset must surface as an error, byte/u32-field mutations at every offset of files that hold one value of every type, nesting depths up to 10^5 and seeded random bytes must end in ok/err - never panic, abort or hang. Outcome classes are judged by FaultTrace.tla.",
@@ -65,7 +65,7 @@ CHECKS = {
                 technique="TLA+ transcription of docs/attributes.md (AttrWire.tla) + trace validation + independent encoder"),
     "C15": dict(level="model_checking", ref="§4 C15, §2.5-2.6",
                 text="For every Migrate descriptor of the exported database, every legacy value (all Enum.Font items, all BrickColor numbers, both booleans, URIs) and {legacy only, legacy + explicit new}, the four paths (binary write, XML write, binary read, XML read; read paths in both chunk/element orders) are executed and TLC evaluates MigIssues: legacy name absent, new property present, value = the specified migration (colour table, inset enum, content URI; Font uninterpreted), explicit value wins, all paths agree; sibling cases put two instances with different legacy values and a bare one in one file. The writer's alias choice is also model-checked (MCBinaryColumns: ExplicitWins).",
-                note="Quick tier strides over the BrickColor numbers; thorough is exhaustive over the database's tables.",
+                note="Quick tier strides over the BrickColor numbers; thorough is exhaustive over the database's tables. Sibling cases: two legacy values in one file, and legacy + explicit next to legacy only in both orders (writers and XML reader); the explicit value is given under every spelling of the target (Color and Color3uint8).",
                 technique="TLA+ MigIssues over the four logged paths (CrossFormatTrace.tla) + model-checked writer column logic"),
     "C16": dict(level="model_checking", ref="§4 C16, §2.2",
                 text="The whole bundled database (797 classes, 3242 descriptors, 7231 defaults, 458 enums) is exported from the working tree and each entry is one TLC state whose coherence predicate (Reflection.tla) is an invariant - exhaustive. The library's own lookup functions (superclasses, superclasses_iter, has_superclass, find_default_property) are run for every class and compared with Reflection.tla's Chain / DefaultOf (ReflectionLookupTrace.tla). Closure under the codec: every class populated with its default set and every serializable descriptor are written/read by rbx_binary and judged by BinaryFormat.tla.",
